@@ -873,7 +873,8 @@ func init() {
 		Rule: "phase 0 (exhaustive): each of the 48 (owner kind x time x target) registrations singly x 12 representative table shapes (header none/0/1/2/3 cells set before or after the rows; rows of 0-3 cells built by AddRowItems, NewRow+Add+AddRow or AppendNewRow+Add; separators) x {registered as soon as the owner exists, registered after the build} x 3 owner instances, followed by an InvokeRenderCallbacks pass and one renderer pass; " +
 			"phase 1 (exhaustive): out-of-range times/targets and a foreign owner type on every owner; phase 2: random sets of 1-12 registrations on random shapes with 1-3 passes through random triggers; phase 3 (thorough, exhaustive): all 48x48 pairs on 3 shapes. " +
 			"Every add operation and every render pass is one window: mandatory events exactly once, every event at most once per (registration,target), allowed targets only, add/render time matching the window, documented nesting order, and read-back through the table of a property set inside the callback. " +
-			"Distinct = distinct (shape, registration multiset, triggers); all cases are non-trivial.",
+			"phase 4: a cell value that already carries 0-4 registrations is added at 1-3 places (separate rows or twice in one row), live cells get further registrations, live cells are copied by value and added again, the caller's variable gets registrations after the fact; a registration made on a live cell must fire exactly once per pass on that cell, and no callback may fire on a cell that neither received it nor is a by-value copy of a carrier. " +
+			"Distinct = distinct (shape, registration multiset, triggers) resp. distinct copy histories; all cases are non-trivial.",
 		Assumptions: []string{
 			"events the statement does not list (cell callbacks registered on column 0, column-level cell callbacks on header cells, add-time callbacks at AddHeaders, table/column cell add-time callbacks for cells added to an already attached row, row-itself callbacks at add time, registrations with no documented firing point) are only checked for at-most-once, allowed target and liveness",
 			"callbacks sharing a slot of the nesting order may run in any order within it",
@@ -884,6 +885,199 @@ func init() {
 			{Name: "refusal of out-of-range times/targets and foreign owner types on 5 owners", Exhaustive: true, N: Fixed(5, 5), Run: c13Refusals},
 			{Name: "random registration sets on random shapes", N: Fixed(4000, 500000), Run: c13Random},
 			{Name: "all 48x48 registration pairs x 3 shapes (thorough only)", Exhaustive: true, N: Fixed(0, 48*48*3), Run: c13Pairs},
+			{Name: "cells carrying callbacks added at several places and copied by value", N: Fixed(2000, 200000), Run: c13Copies},
 		},
 	})
+}
+
+// ---------------------------------------------------------------------------
+// cells are the one callback owner that is passed and stored BY VALUE: a cell
+// that already carries registrations can be added at several places, and a
+// live cell can be copied out and added again.  Registrations made on one
+// live cell afterwards must fire on that cell only.
+
+type c13cReg struct {
+	id      int
+	home    string          // live cell the registration was made on ("" = on the caller's variable)
+	carried map[string]bool // cells which legitimately carry it (home + later by-value copies of carriers)
+	desc    string
+}
+
+type c13cLive struct {
+	id  string // "row.col"
+	loc tabular.CellLocation
+}
+
+func c13Copies(c *Ctx, i int, r *gen.R) {
+	t := tabular.New()
+	var log []string
+	desc := map[string]interface{}{}
+	c.Case = desc
+	say := func(f string, a ...interface{}) { log = append(log, fmt.Sprintf(f, a...)); desc["history"] = log }
+	var regs []*c13cReg
+	type ev struct {
+		g    *c13cReg
+		cell string
+		key  string
+		seq  int
+		live bool
+	}
+	var events []ev
+	seq := 0
+	mkcb := func(g *c13cReg) tabular.PropertyCallback {
+		return cbFunc(func(o tabular.PropertyOwner) error {
+			seq++
+			e := ev{g: g, seq: seq, key: fmt.Sprintf("c13c/%d/%d", g.id, seq)}
+			if x, ok := o.(*tabular.Cell); ok {
+				loc := x.Location()
+				e.cell = fmt.Sprintf("%d.%d", loc.Row, loc.Column)
+				if p, err := t.CellAt(loc); err == nil && p == x {
+					e.live = true
+				}
+				x.SetProperty(e.key, seq)
+			} else {
+				e.cell = fmt.Sprintf("?%T", o)
+			}
+			events = append(events, e)
+			c.Rec.Count("callback_events_observed", 1)
+			return nil
+		})
+	}
+	newReg := func(home string, what string) *c13cReg {
+		g := &c13cReg{id: len(regs) + 1, home: home, carried: map[string]bool{}, desc: what}
+		if home != "" {
+			g.carried[home] = true
+		}
+		regs = append(regs, g)
+		return g
+	}
+	register := func(owner *tabular.Cell, g *c13cReg) bool {
+		tg := cbTargets[r.Intn(2)]
+		if err := t.RegisterPropertyCallback(owner, cbTimes[2], tg, mkcb(g)); err != nil {
+			c.Rec.Violate("registration-refused:cell", fmt.Sprintf("registering a render-time callback on a cell failed: %v", err), desc)
+			return false
+		}
+		c.Rec.Count("registrations", 1)
+		return true
+	}
+	var live []c13cLive
+	place := func(cell tabular.Cell, inherit func(id string)) {
+		var row *tabular.Row
+		if len(live) > 0 && r.Chance(1, 4) {
+			// same row as the most recent placement
+			rows := t.AllRows()
+			row = rows[len(rows)-1]
+		} else {
+			row = t.AppendNewRow()
+			for k := r.Intn(3); k > 0; k-- {
+				row.Add(tabular.NewCell("filler"))
+			}
+		}
+		row.Add(cell)
+		loc := tabular.CellLocation{Row: row.Location().Row, Column: len(row.Cells())}
+		id := fmt.Sprintf("%d.%d", loc.Row, loc.Column)
+		live = append(live, c13cLive{id, loc})
+		inherit(id)
+		say("cell value added at (%s)", id)
+	}
+	// 1. a template cell, with some registrations made before it is anywhere
+	tmpl := tabular.NewCell("template")
+	var tmplRegs []*c13cReg
+	npre := r.Range(0, 4)
+	for k := 0; k < npre; k++ {
+		g := newReg("", fmt.Sprintf("#%d on the caller's cell variable before it is added", len(regs)+1))
+		if !register(&tmpl, g) {
+			return
+		}
+		tmplRegs = append(tmplRegs, g)
+		say("register %s", g.desc)
+	}
+	// 2. the template is added at 1-3 places
+	for k := r.Range(1, 3); k > 0; k-- {
+		place(tmpl, func(id string) {
+			for _, g := range tmplRegs {
+				g.carried[id] = true
+			}
+		})
+	}
+	// 3. further registrations and copies
+	for k := r.Range(1, 6); k > 0; k-- {
+		switch r.Intn(4) {
+		case 0, 1:
+			x := live[r.Intn(len(live))]
+			p, err := t.CellAt(x.loc)
+			if err != nil {
+				c.Rec.Violate("liveness:cell-unreachable", fmt.Sprintf("CellAt(%+v): %v", x.loc, err), desc)
+				return
+			}
+			g := newReg(x.id, fmt.Sprintf("#%d on live cell (%s)", len(regs)+1, x.id))
+			say("register %s", g.desc)
+			if !register(p, g) {
+				return
+			}
+		case 2:
+			x := live[r.Intn(len(live))]
+			p, _ := t.CellAt(x.loc)
+			cp := *p
+			say("copy := *CellAt(%s)", x.id)
+			place(cp, func(id string) {
+				for _, g := range regs {
+					if g.carried[x.id] {
+						g.carried[id] = true
+					}
+				}
+			})
+		case 3:
+			g := newReg("", fmt.Sprintf("#%d on the caller's cell variable after it was added (must never fire in the table)", len(regs)+1))
+			say("register %s", g.desc)
+			if !register(&tmpl, g) {
+				return
+			}
+		}
+	}
+	// 4. render passes
+	c.Rec.Eval(gen.Hash64("copies", fmt.Sprint(log)), true)
+	for pass := r.Range(1, 2); pass > 0; pass-- {
+		events = events[:0]
+		trg := c13Triggers[r.Intn(len(c13Triggers))]
+		say("render pass via %s", trg.name)
+		trg.f(t)
+		c.Rec.Count("windows_analysed", 1)
+		count := map[string]int{}
+		for _, e := range events {
+			if !e.live {
+				c.Rec.Violate("not-live-object:cell-copy-scenario", fmt.Sprintf("callback %s was handed a cell (%s) which is not the live cell at that location", e.g.desc, e.cell), desc)
+				return
+			}
+			if !e.g.carried[e.cell] {
+				c.Rec.Violate("cross-talk-between-cell-copies", fmt.Sprintf("callback %s fired on cell (%s), on which it was never registered and which is not a copy of a cell carrying it", e.g.desc, e.cell), desc)
+				return
+			}
+			k := fmt.Sprintf("%d|%s", e.g.id, e.cell)
+			count[k]++
+			if count[k] > 1 {
+				c.Rec.Violate("repeated:cell-copy-scenario", fmt.Sprintf("callback %s fired %d times on cell (%s) in one pass", e.g.desc, count[k], e.cell), desc)
+				return
+			}
+			loc := tabular.CellLocation{}
+			fmt.Sscanf(e.cell, "%d.%d", &loc.Row, &loc.Column)
+			if p, err := t.CellAt(loc); err != nil || p.GetProperty(e.key) != interface{}(e.seq) {
+				c.Rec.Violate("liveness:cell-copy-scenario", fmt.Sprintf("the property callback %s set on cell (%s) is not visible through CellAt", e.g.desc, e.cell), desc)
+				return
+			}
+		}
+		for _, g := range regs {
+			if g.home == "" {
+				continue
+			}
+			c.Rec.Count("mandatory_events_expected", 1)
+			if n := count[fmt.Sprintf("%d|%s", g.id, g.home)]; n != 1 {
+				c.Rec.Violate("missing:cell-copy-scenario", fmt.Sprintf("callback %s fired %d times on its own cell in this pass; exactly once is required", g.desc, n), desc)
+				return
+			}
+		}
+	}
+	if c.Rec.WantSample() && i%40 == 9 {
+		c.Rec.Sample(map[string]interface{}{"cell_copy_scenario": log})
+	}
 }
